@@ -305,10 +305,14 @@ def _valid_code_predicate(c: Ctx, r: RuleResult) -> None:
 
     T, F, B = frozenset({True}), frozenset({False}), frozenset({True, False})
 
+    cenv: dict[str, int] = {}          # names bound to constants by an unrolled table loop
+
     def ival(e: ast.AST, iv: tuple[int, int]):
         """interval of an int expression, or None (unknown)"""
         if isinstance(e, ast.Name) and e.id == pname:
             return iv
+        if isinstance(e, ast.Name) and e.id in cenv:
+            return (cenv[e.id], cenv[e.id])
         if isinstance(e, ast.Constant) and isinstance(e.value, int) and not isinstance(e.value, bool):
             return (e.value, e.value)
         if isinstance(e, ast.BinOp) and isinstance(e.op, (ast.Add, ast.Sub)):
@@ -412,6 +416,30 @@ def _valid_code_predicate(c: Ctx, r: RuleResult) -> None:
                 continue
             if isinstance(s_, ast.Expr) and isinstance(s_.value, ast.Constant):
                 continue
+            if isinstance(s_, ast.For) and not s_.orelse:
+                # for low, high in TABLE: ...   over a constant table: unrolled, the targets bound to the constants
+                it = s_.iter
+                elts = tables.get(it.id) if isinstance(it, ast.Name) else list(it.elts) if isinstance(it, (ast.Tuple, ast.List)) else None
+                tg = s_.target.elts if isinstance(s_.target, (ast.Tuple, ast.List)) else [s_.target]
+                if elts is not None and all(isinstance(t, ast.Name) for t in tg) \
+                        and not any(isinstance(x, (ast.Break, ast.Continue)) for b_ in s_.body for x in ast.walk(b_)):
+                    done = False
+                    for el in elts:
+                        vals = el.elts if isinstance(el, (ast.Tuple, ast.List)) and len(tg) > 1 else [el]
+                        if len(vals) != len(tg) or not all(isinstance(v, ast.Constant) and isinstance(v.value, int) for v in vals):
+                            return frozenset(out | {True, False})
+                        saved = dict(cenv)
+                        cenv.update({t.id: v.value for t, v in zip(tg, vals)})          # type: ignore[union-attr]
+                        res_i = run(s_.body, iv)
+                        cenv.clear()
+                        cenv.update(saved)
+                        out |= {v for v in res_i if v is not None}
+                        if None not in res_i:
+                            done = True
+                            break
+                    if done:
+                        return frozenset(out)
+                    continue
             return frozenset(out | {True, False})          # a statement the evaluator does not model: anything may happen
         return frozenset(out | {None})
 
